@@ -84,6 +84,30 @@ let () =
           | _ -> failwith "pair" in
         tok_of_list one (split_on ',' pairs)
     | _ -> failwith "c05.cmp args");
+  (* the column index of a MultiRowGroup column chunk: chunks separated by '/',
+     a chunk is <IsAscending><IsDescending>~page,page,... with page = N (null
+     page) or min:max; answer: <IsAscending><IsDescending> of the multi index *)
+  register "c05.multi" (function
+    | [kind; chunks] ->
+        let parse conv tok =
+          match String.split_on_char '~' tok with
+          | [flags; pages] when String.length flags = 2 ->
+              let pg p =
+                match String.split_on_char ':' p with
+                | ["N"] -> None
+                | [mn; mx] -> Some (conv mn, conv mx)
+                | _ -> failwith ("multi page " ^ p) in
+              ((flags.[0] = '1', flags.[1] = '1'), list_of_tok pg pages)
+          | _ -> failwith ("multi chunk " ^ tok) in
+        let answer cmp conv =
+          let cs = List.map (parse conv) (split_on '/' chunks) in
+          let idx = List.map snd cs in
+          let a = Model.multi_is_ordered cmp true (List.map (fun c -> fst (fst c)) cs) idx in
+          let d = Model.multi_is_ordered cmp false (List.map (fun c -> snd (fst c)) cs) idx in
+          tok_of_bool a ^ tok_of_bool d in
+        if is_num kind then answer (Model.cmp_num (numkind kind)) n_of_hex
+        else answer (Model.cmp_byte (bytekind kind)) bytes_of_tok
+    | _ -> failwith "c05.multi args");
   register "c05.hist" (function
     | [maxl; levels] ->
         let ml = int_of_string maxl in
